@@ -70,6 +70,9 @@ Params(f) ==
     [] f = "Sandwich" -> [kind |-> {"PlanarSandwich", "PlanarSandwichHot", "PlanarSandwichHalf"}, kappa |-> Pick({<<1, 1>>, <<1, 2>>}, {}),
                           L |-> Pick({<<2, 1>>, <<3, 1>>}, {}), TL |-> Pick({<<0, 1>>, <<3, 1>>}, {}), TR |-> Pick({<<0, 1>>, <<2, 1>>}, {}),
                           b1 |-> Pick({<<1, 1>>, <<2, 1>>}, {}), b2 |-> Pick({<<0, 1>>, <<1, 2>>}, {})]
+    [] f = "BBNoh" -> \* black-box-EOS Noh: EOS class, its gamma and one further constant (sound speed / co-volume scale)
+                      [eos |-> {"ideal", "stiffened", "noble_abel", "carnahan_starling"}, gamma |-> Pick({<<5, 3>>, <<7, 5>>}, {<<3, 1>>}),
+                       c1 |-> Pick({<<1, 1>>, <<1, 2>>}, {}), symmetry |-> {0, 1, 2}, rho0 |-> Pick({<<1, 1>>, <<2, 1>>}, {}), u0 |-> Pick({<<-1, 1>>, <<-3, 2>>}, {})]
     [] f = "Riemann2D" -> \* supersonic bottom / top states: pressure, density, Mach number, flow angle (degrees), gamma
                           [pB |-> Pick({<<1, 1>>, <<2, 1>>}, {}), rB |-> Pick({<<1, 1>>}, {<<1, 2>>}), MB |-> Pick({<<12, 5>>, <<3, 1>>}, {<<4, 1>>}),
                            thB |-> Pick({<<0, 1>>, <<5, 1>>}, {<<-5, 1>>}), gB |-> Pick({<<7, 5>>, <<5, 3>>}, {}),
@@ -122,6 +125,7 @@ TimesOf(f, p) ==
     [] f \in {"Kenamond1", "Kenamond2", "Kenamond3", "DSDcyl"} -> {<<1, 1>>}      \* burn-time fields do not depend on t
     [] f = "Blake" -> Pick({<<1, 20>>, <<1, 10>>}, {})
     [] f \in {"RadShock", "Riemann2D"} -> {<<1, 1>>}
+    [] f = "BBNoh" -> Pick({<<3, 5>>}, {<<3, 2>>})
     [] f = "SuOlson" -> Pick({<<1, 10>>, <<1, 1>>, <<10, 1>>}, {<<1, 100>>, <<3, 1>>})     \* dimensionless time tau
     [] f \in {"Rod1D", "Hutchens1", "RodNH", "Sandwich", "Rectangle", "Hutchens2"} -> Pick({<<1, 10>>, <<1, 2>>}, {<<1, 100>>})
     [] OTHER -> Times
@@ -130,12 +134,13 @@ TimesOf(f, p) ==
 (* fractional power of a negative number): the mathematics, not a        *)
 (* documented restriction of the solver                                  *)
 Geom(f, p) == IF "geometry" \in DOMAIN p THEN p.geometry
-              ELSE IF f \in RiemannFams \cup {"EHEP", "Mader", "EPpiston", "Rod1D", "RodNH", "Sandwich", "SuOlson", "RadShock"} THEN 1 ELSE IF f = "Riemann2D" THEN 2 ELSE IF f = "DSDcyl" THEN 2 ELSE 3
+              ELSE IF f \in RiemannFams \cup {"EHEP", "Mader", "EPpiston", "Rod1D", "RodNH", "Sandwich", "SuOlson", "RadShock"} THEN 1 ELSE IF f = "Riemann2D" THEN 2 ELSE IF f = "BBNoh" THEN p.symmetry + 1 ELSE IF f = "DSDcyl" THEN 2 ELSE 3
 Defined(f, p, t) ==
   LET k == Geom(f, p) - 1 IN
   CASE f \in RiemannFams -> /\ ~(QEq(p.pl, p.pr) /\ QEq(p.ul, p.ur))                   \* a pure contact has no acoustic waves
                             /\ ~(QEq(p.pl, p.pr) /\ QEq(p.rl, p.rr) /\ QEq(p.gl, p.gr))  \* mirror-symmetric data: no contact
     [] f = "Riemann2D" -> ~(QEq(p.pB, p.pT) /\ QEq(p.thB, p.thT))     \* equal pressures and directions: a pure slip line, no waves
+    [] f = "BBNoh" -> p.eos # "ideal" => p.symmetry = 0     \* with a non-ideal EOS the cold converging inflow is not an EOS state (section 7)
     [] f = "Sedov" -> QLt(p.omega, <<Geom(f, p), 1>>)
     [] f = "DSDcyl" -> QLt(p.r_1, p.r_2) /\ QLt(QDiv(p.alpha_1, p.D_CJ_1), p.r_1) /\ QLt(QDiv(p.alpha_2, p.D_CJ_2), p.r_2)
     [] f = "Kenamond2" -> QLe(p.D2, p.D1)
